@@ -26,7 +26,7 @@ func init() {
 			"testdrv time stamps carry one constant offset per session (Listen stamps the real clock, Sleep moves a virtual one): the monitor requires one offset in [-60 s, 0] consistent with every delivery; exact stamps are decided at the drivers.Reader level",
 			"F8..FF are all treated as real-time (delivered as one-byte messages)",
 		},
-		Require:         []string{"runs_l1", "runs_l2", "elisions", "rt_inside_message", "rt_inside_sysex", "sysex_exact_buffer", "split_inside_message", "deliveries_checked", "generator_crosschecks", "sysex_sweep_lengths", "sandwich_chunks", "reconfigured_sessions", "clock_wrap_streams", "giant_sysex_streams", "empty_deliveries", "nested_runs_l1", "nested_runs_l2", "nested_rest_starts_in_running_status", "stall_runs_over_2s", "pauses_over_1s_inside_a_message", "pauses_over_1s_inside_a_sysex"},
+		Require:         []string{"runs_l1", "runs_l2", "elisions", "rt_inside_message", "rt_inside_sysex", "sysex_exact_buffer", "split_inside_message", "deliveries_checked", "generator_crosschecks", "sysex_sweep_lengths", "sandwich_chunks", "reconfigured_sessions", "clock_wrap_streams", "giant_sysex_streams", "empty_deliveries", "two_listener_sessions", "nested_runs_l1", "nested_runs_l2", "nested_rest_starts_in_running_status", "stall_runs_over_2s", "pauses_over_1s_inside_a_message", "pauses_over_1s_inside_a_sysex"},
 		FakeTimeWorkers: 2,
 		Run:             runC04,
 	})
@@ -459,6 +459,97 @@ func runC04(c *mon.Ctx) {
 			c.Violation("l1-giant-sysex", fmt.Sprintf("a sysex of %d bytes under SysExBufferSize %d: delivered message lengths %v, expected [3 %d 1 3]", n, buf, lens, n), in, []int{3, n, 1, 3}, lens)
 		}
 		c.DistinctBytes([]byte(fmt.Sprint("giant", n)))
+	})
+
+	// several listeners with different sysex buffer sizes alive in one process (a control surface with small
+	// dumps next to a synth with large ones): what one of them receives must not depend on what the others
+	// were configured with or received before
+	sizePairs := [][2]int{{5000, 8192}, {4196, 6000}, {40000, 65536}, {20000, 32768}, {1500, 2048}, {300, 512}, {1024, 1025}, {70000, 100000}}
+	c.Each("two-listeners", int64(len(sizePairs)*4), func(i int64, r *mon.Rand) {
+		a, b := sizePairs[int(i)%len(sizePairs)][0], sizePairs[int(i)%len(sizePairs)][1]
+		if int(i)/len(sizePairs)%2 == 1 {
+			a, b = b, a
+		}
+		level := 1 + int(i)/len(sizePairs)/2
+		mk := func(n int, tag byte) []byte {
+			sx := make([]byte, n)
+			sx[0] = 0xF0
+			for j := 1; j < n-1; j++ {
+				sx[j] = (byte(j) + tag) & 0x7F
+			}
+			sx[n-1] = 0xF7
+			return sx
+		}
+		lo, hi := a, b
+		if lo > hi {
+			lo, hi = hi, lo
+		}
+		// lengths: fits both, fits only the larger one, exactly the sizes, fits none
+		lens := []int{lo / 2, lo, lo + 1, (lo + hi) / 2, hi, hi + 1}
+		type lst struct {
+			size int
+			got  [][]byte
+			feed func([]byte)
+		}
+		mkL := func(size int) *lst {
+			l := &lst{size: size}
+			if level == 1 {
+				rd := drivers.NewReader(drivers.ListenConfig{SysEx: true, SysExBufferSize: uint32(size), TimeCode: true, ActiveSense: true}, func(m []byte, ts int32) {
+					_, norm := normL1(m)
+					l.got = append(l.got, append([]byte(nil), norm...))
+				})
+				l.feed = func(b []byte) { rd.EachMessage(b, 1) }
+			} else {
+				x := newL2()
+				midi.ListenTo(x.in, func(m midi.Message, ts int32) { l.got = append(l.got, append([]byte(nil), m...)) }, midi.UseSysEx(), midi.SysExBufferSize(uint32(size)))
+				l.feed = func(b []byte) { x.out.Send(b) }
+			}
+			return l
+		}
+		la, lb := mkL(a), mkL(b)
+		in := map[string]any{"level": level, "buffer_size_of_listener_A": a, "buffer_size_of_listener_B": b, "sysex_lengths_sent_alternately_to_A_and_B": lens}
+		var wantA, wantB [][]byte
+		if c.Guard("panic:two-listeners", in, func() {
+			for k, n := range lens {
+				ma, mb := mk(n, byte(k)), mk(n, byte(k+64))
+				note := []byte{0x90 | byte(k), 60, 100}
+				la.feed(append(append([]byte(nil), ma...), note...))
+				lb.feed(append(append([]byte(nil), mb...), note...))
+				if n <= a {
+					wantA = append(wantA, ma)
+				}
+				wantA = append(wantA, note)
+				if n <= b {
+					wantB = append(wantB, mb)
+				}
+				wantB = append(wantB, note)
+			}
+		}) {
+			return
+		}
+		c.Count("two_listener_sessions", 1)
+		for _, x := range []struct {
+			name      string
+			got, want [][]byte
+			size      int
+		}{{"A", la.got, wantA, a}, {"B", lb.got, wantB, b}} {
+			ok := len(x.got) == len(x.want)
+			for k := 0; ok && k < len(x.got); k++ {
+				ok = bytes.Equal(x.got[k], x.want[k])
+			}
+			if !ok {
+				var gl, wl []int
+				for _, m := range x.got {
+					gl = append(gl, len(m))
+				}
+				for _, m := range x.want {
+					wl = append(wl, len(m))
+				}
+				c.Violation(fmt.Sprintf("l%d-two-listeners", level), fmt.Sprintf("listener %s (sysex buffer %d) next to a listener with buffer %d: delivered message lengths %v, expected %v (every sysex up to its own buffer size, and every note)", x.name, x.size, a+b-x.size, gl, wl), in, wl, gl)
+				return
+			}
+		}
+		c.DistinctBytes([]byte(fmt.Sprint("two-listeners", i)))
 	})
 
 	// re-entrant delivery: the rest of the stream is delivered from inside the listener callback of one of
